@@ -224,7 +224,7 @@ func mutateJSON(r *Rng, body string) string {
 }
 
 func advIdx(r *Rng, n int) string {
-	switch r.Intn(12) {
+	switch r.Intn(13) {
 	case 0:
 		return "-1"
 	case 1:
@@ -241,6 +241,8 @@ func advIdx(r *Rng, n int) string {
 		return " 2"
 	case 7:
 		return "0x2"
+	case 8: // between 2^63 and 2^64: not an int, though it is a uint64
+		return []string{"9223372036854775808", "18446744073709551615", "9223372036854775809"}[r.Intn(3)]
 	}
 	return strconv.Itoa(r.Intn(n))
 }
@@ -492,6 +494,11 @@ func runC15(c *Case) error {
 		codes := map[string]bool{}
 		for _, o := range h.Ops {
 			rq, rs, _ := g.exec(o)
+			if negIndex.MatchString(rs) {
+				// a stored entry with a negative index: not expressible in the model's vocabulary, and a
+				// violation by itself (an out-of-range index was accepted)
+				panic(fmt.Sprintf("response of %s carries a negative index: %s", rq, head(rs, 300)))
+			}
 			reqs = append(reqs, rq)
 			resps = append(resps, rs)
 			if strings.HasPrefix(rs, "RStatus") || strings.HasPrefix(rs, "(RStatus") || strings.HasPrefix(rs, "RPanicked") {
@@ -634,6 +641,8 @@ func runC15(c *Case) error {
 	}
 	return nil
 }
+
+var negIndex = regexp.MustCompile(`(^|[^0-9A-Za-z_])(e|g3)( [0-9]+)? -[0-9]`)
 
 var longDigits = regexp.MustCompile(`[0-9]{7,}`)
 
